@@ -18,7 +18,7 @@
    per-call theorems, checked by K and by the oracle call by call). *)
 From Coq Require Import ZArith List Bool PrimFloat.
 Import ListNotations.
-Require Import PyBase Solver SolverFacts SolverF SolveAll SolveAllFacts Linker LinkerFacts LinkerFacts2 LinkerFacts3 LinkerFacts4 LinkerRange LinkerFacts5 LinkerFacts6 LinkerFacts7 LinkerF LinkerExamples LinkerExamples2.
+Require Import PyBase Solver SolverFacts SolverF SolveAll SolveAllFacts Linker LinkerFacts LinkerFacts2 LinkerFacts3 LinkerFacts4 LinkerRange LinkerFacts5 LinkerFacts6 LinkerFacts7 LinkerFacts8 LinkerF LinkerExamples LinkerExamples2.
 Open Scope Z_scope.
 
 (* ---------------------------------------------------------------- what NO path of solve_t changes *)
@@ -772,45 +772,43 @@ Theorem C08_single_model_linker_eq_model :
          (isfin : num -> bool) (zero : num) (sev : sid -> hook num) (ev : hook num)
          (d : mdesc) (o : opts num) (t : Z) (p : nat) (id : sid)
          (cd : mdesc) (cv : vals num) (cs : list st) (ci : list Z) (cl : list event)
-         (mv : vals num) (ms : list st) (mi : list Z) (ml : list event) (lg : list levent),
+         (mv : vals num) (ms : list st) (mi : list Z) (ml : list event) (lg : list levent) (sel : option (list sid)),
     check cd = [] ->                                         (* the linker adds no check variable of its own *)
     py_pos (length cs) t = Some p -> length ci = length cs ->
     py_pos (length ms) t = Some p -> length mi = length ms ->
-    forall (sel : option (list sid)),
     (* what __init__ establishes for a linker over this one model: its lags / leads are the model's, same span length *)
     lags cd = lags d -> leads cd = leads d -> length cs = length ms ->
     (min_iter o <= max_iter o -> 0 <= max_iter o) ->
-    offset o = 0 ->                                          (* with an offset: C08_linker_offset_seeds and Solver.offset_seeds
-                                                                reduce both sides to this case on the seeded state *)
-    (forall i, (1 <= i <= Z.to_nat (max_iter o))%nat ->      (* no evaluation raises (the model would wrap it in SolutionError) *)
-       snd (evk num ev o t i (st_after num ev o t mv (i - 1))) = None) ->
-    (forall i, (i <= Z.to_nat (max_iter o))%nat ->           (* finite regime (the linker has no error policy: kept finding) *)
-       all_finite num isfin (chkseq num zero ev d o t p (get_check num zero d mv p) mv i) = true) ->
-    (forall i, (1 <= i <= Z.to_nat (max_iter o))%nat ->      (* evaluation independent of the warning filter in force *)
-       sev id t (errors o) (catch_first o) i (st_after num ev o t mv (i - 1))
-       = ev t (errors o) (catch_first o) i (st_after num ev o t mv (i - 1))) ->
     sel = None \/ sel = Some [id] ->
+    (* ANY offset (honoured by the linker since fix 6298cba).  mv0 = the values the iterations start from: the model's
+       own, or — with a non-zero offset — those with the endogenous rows of period t seeded from period t + offset *)
+    let mv0 := if offset o =? 0 then mv else copy_endo num zero d mv p (Z.to_nat (Z.of_nat p + offset o)) in
+    (forall i, (1 <= i <= Z.to_nat (max_iter o))%nat ->      (* no evaluation raises (the model would wrap it in SolutionError) *)
+       snd (evk num ev o t i (st_after num ev o t mv0 (i - 1))) = None) ->
+    (forall i, (i <= Z.to_nat (max_iter o))%nat ->           (* finite regime (the linker has no error policy: kept finding) *)
+       all_finite num isfin (chkseq num zero ev d o t p (get_check num zero d mv0 p) mv0 i) = true) ->
+    (forall i, (1 <= i <= Z.to_nat (max_iter o))%nat ->      (* evaluation independent of the warning filter in force *)
+       sev id t (errors o) (catch_first o) i (st_after num ev o t mv0 (i - 1))
+       = ev t (errors o) (catch_first o) i (st_after num ev o t mv0 (i - 1))) ->
     let rm := solve_t_M num sub absf ltb isfin zero ev (id_hook num) (id_hook num) d o t (mkState mv ms mi ml) in
     let rl := linker_solve_t_M num sub absf ltb zero sev (id_lhook num) (id_lhook num) (id_lhook num) (id_lhook num) sel o t
                 (mkL (mkComp cd (mkState cv cs ci cl)) [(id, mkComp d (mkState mv ms mi ml))] lg) in
-    (* rejected by a guard: min_iter > max_iter (ValueError) or no room for the lags / leads at t (IndexError) — by BOTH *)
-    let rejected := (max_iter o <? min_iter o) || negb (feasible d (length ms) p) in
+    (* rejected — by BOTH, nothing changed: min_iter > max_iter (ValueError), no room for the lags / leads at t, or an
+       offset pointing outside the span (IndexError) *)
+    let rejected := (max_iter o <? min_iter o) || negb (feasible d (length ms) p) ||
+                    (negb (offset o =? 0) && ((Z.of_nat p + offset o <? 0) || (Z.of_nat (length ms) <=? Z.of_nat p + offset o))) in
     snd rl = lout_of (snd rm) /\
     l_subs (fst rl) = [(id, mkComp d (mkState (vals_of (fst rm)) (status (fst rm)) (iters (fst rm)) ml))] /\
     status (c_st (l_core (fst rl))) = (if rejected then cs else upd p (nth p (status (fst rm)) Unsolved) cs) /\
-    iters (c_st (l_core (fst rl))) = (if rejected then ci else upd p (nth p (iters (fst rm)) 0) ci) /\
-    (rejected = true ->
-       fst rl = mkL (mkComp cd (mkState cv cs ci cl)) [(id, mkComp d (mkState mv ms mi ml))] lg /\
-       fst rm = mkState mv ms mi ml /\
-       snd rm = Raise (if max_iter o <? min_iter o then ValueError else IndexError)).
-Proof. exact single_model_linker_eq_model. Qed.
+    iters (c_st (l_core (fst rl))) = (if rejected then ci else upd p (nth p (iters (fst rm)) 0) ci).
+Proof. exact single_model_linker_eq_model_any_offset. Qed.
 
 (* [clause] the same for solve() over a RANGE: the linker over one model, solved over the positions ps (any order, repeats,
    rejected periods included), returns the same flags — or raises the same exception at the same period — and leaves the model
    with the same values, statuses and iteration counts as the model solved directly, one solve_t per period (direct_solve:
    the min_iter > max_iter guard, then the fold; the first exception ends the run).  `regime` = the premises of the solve_t
    theorem (finite check values, no raising evaluation, warning-filter independence, 0 <= max_iter) at every period of the
-   direct run; the `log` field of the model state is trace instrumentation, reset to ml0 between periods (relog) *)
+   direct run; the `log` field of the model state is trace instrumentation, reset to ml0 between periods (relog); stated for offset = 0 *)
 Theorem C08_single_model_linker_solve_eq_model_solve :
   forall (num : Type) (sub : num -> num -> num) (absf : num -> num) (ltb : num -> num -> bool)
          (isfin : num -> bool) (zero : num) (sev : sid -> hook num) (ev : hook num)
